@@ -84,6 +84,50 @@ fn end(what: &str, id0: u32, expect_live: &[u32], leaked_blocks: usize) -> R {
     Ok(())
 }
 
+/// A length whose layout cannot be computed: the constructor must refuse with a panic; the header it was
+/// handed is initialised and owned by the call, so it is destroyed exactly once, and nothing stays allocated.
+pub fn refused_len_case<H: Pay, E: Pay>(which: usize, st: &mut UStats) -> R {
+    let esz = std::mem::size_of::<E>().max(1);
+    let lens = [
+        usize::MAX,
+        usize::MAX / 2,
+        isize::MAX as usize / esz + 1,
+        usize::MAX / esz + 1,
+        isize::MAX as usize,
+    ];
+    if std::mem::size_of::<E>() == 0 {
+        return Ok(());
+    }
+    let len = lens[which % lens.len()];
+    let what = format!(
+        "from_header_and_uninit_slice::<{}, {}>(len={:#x}) refused",
+        H::NAME,
+        E::NAME,
+        len
+    );
+    let id0 = begin();
+    let h = shadow::tracked(|| H::make(7));
+    let r = shadow::tracked(|| {
+        catch(|| {
+            let u = UniqueArc::<HeaderSlice<H, [MaybeUninit<E>]>>::from_header_and_uninit_slice(h, len);
+            let l = u.slice.len();
+            std::mem::forget(u);
+            l
+        })
+    });
+    ensure!(
+        r.is_err(),
+        "C15,C05",
+        "uninit",
+        "{}: a handle came back for a length whose size overflows (slice length {:?})",
+        what,
+        r.ok()
+    );
+    end(&what, id0, &[], 0)?;
+    st.counts.bump("uninit.refused-length");
+    Ok(())
+}
+
 pub const SLICE_PATHS: usize = 7;
 
 /// len elements, `mask` bit k set = slot k is written before the handle is dropped / assumed.
